@@ -65,3 +65,14 @@ Theorem C08_turn_prefix_refuted :
      ++ fst (run (script_sim f1_script) MTurn (init (ss_init f1_script)) [CReset]).
 Proof. split; [vm_compute; discriminate|vm_compute; reflexivity]. Qed.
 Print Assumptions C08_turn_prefix_refuted.
+
+(* ---- other layers ---------------------------------------------------------------------------- *)
+From Abm Require Import Ctl.Adapters Proofs.Adapters_proofs.
+
+(* GymABS (after the repair of F5): whatever the cache held, reset leaves it exactly as a reset
+   of a newly built object does *)
+Theorem C08_reset_fresh_gymabs :
+  forall E Obs Info Act (G : genv E Obs Info Act) e (c : gcache Obs Info),
+    snd (gabs_reset G e c) = snd (gabs_reset G e gabs_fresh).
+Proof. exact @gymabs_reset_fresh. Qed.
+Print Assumptions C08_reset_fresh_gymabs.
